@@ -19,6 +19,10 @@ type Config struct {
 	Defer   bool `json:"defer,omitempty"`
 	Recover bool `json:"recover,omitempty"`
 	Dry     bool `json:"dry,omitempty"`
+	// Shadow: before this history runs, a variant of it (options stripped
+	// from every registration) is run on another container in the same
+	// process: containers share nothing, so this must change nothing
+	Shadow bool `json:"shadow,omitempty"`
 	// DryFalse: dig.DryRun(false) is passed explicitly (same as no option)
 	DryFalse bool `json:"dryfalse,omitempty"`
 }
@@ -247,6 +251,9 @@ func (c *Case) Short() string {
 	}
 	if c.Cfg.DryFalse {
 		sb.WriteString("DryRun(false) ")
+	}
+	if c.Cfg.Shadow {
+		sb.WriteString("after-shadow-container ")
 	}
 	sb.WriteString("}")
 	for i, op := range c.Ops {
